@@ -14,49 +14,49 @@ LEVEL_TEXT = ("Repository-specific static rules over the type-checked SSA form o
 # id -> (decides, note, technique); ids missing here are listed under not_applicable with NA[id]
 TRUST = "Trusted: go/types, go/ssa (x/tools v0.29.0), the Go memory model and the documented semantics of the standard library; lock, field and channel identity is by (type, field), instances are not distinguished; hand-confirmed instance minimums and idiom tables in /verif/checker/rules_*.go. A re-architecture of the anchored mechanism that uses an idiom the rule does not know is reported as undecided (the check fails rather than pass on code it does not understand). "
 CLAIMS = {
- "C02": ("reader hand-off channels are buffered at every make site; waiter registered before the write; the wait prefers a delivered reply over the close notification; reader re-arms the read deadline; no exit between write and wait; single waiter slot cleared only by the reader; the frame reader reads only through io.ReadFull; the waiter is registered under the widened 16-bit wire id the reader looks up; every exchange-path function passes on and waits on its own context. Not decided: timing.",
+ "C02": ("reader hand-off channels are buffered at every make site; waiter registered before the write; the wait prefers a delivered reply over the close notification; reader re-arms the read deadline; no exit between write and wait; single waiter slot cleared only by the reader; the frame reader reads only through io.ReadFull; the waiter is registered under the widened 16-bit wire id the reader looks up; every exchange-path function passes on and waits on its own context. Also: reply channels are consumed only by their exchange, which returns what it received; waiters are removed only by deferred calls. Not decided: timing.",
          TRUST + "Go channel semantics (a send on a channel with free buffer space never blocks).",
          "SSA value-provenance of channel make sites + dominance / must-pass-through on the CFG"),
- "C04": ("the cache key builder is injective in (AD, CD, DO, 16 type bits, 16 class bits, name): every input bit is the sole dependency of a header bit, the name is copied verbatim, the buffer is fresh and private; non-empty key only for QR=0/QUERY/one question; one key value for lookup and stores. This is the whole property except the semantics of miekg/dns field accessors.",
+ "C04": ("the cache key builder is injective in (AD, CD, DO, 16 type bits, 16 class bits, name): every input bit is the sole dependency of a header bit, the name is copied verbatim, the buffer is fresh and private; non-empty key only for QR=0/QUERY/one question; one key value for lookup and stores. Also: no access to key bytes through sub-slices; the empty key never reaches the backend; no slicing of the key; the dump loader stores under the dumped key. This is the whole property except the semantics of miekg/dns field accessors.",
          TRUST + "miekg/dns Msg.IsEdns0 / OPT.Do as documented; Go string map-key equality.",
          "bit-level dependency abstract interpretation of the key builder (SSA) + guard and provenance rules"),
- "C09": ("lockset on counters, waiter table, flags and connection sets; admission test inside the critical section; exactly-once release and wait-group accounting on every path of both ReservedExchanger implementations; no double counting of in-flight queries; reserved exchangers consumed exactly once by callers; dial only when nothing admitted; dialing limit <= connection limit; a reservation is released only by defer or after its exchange returned; connections change hands only by rendezvous. Not decided: run-time maxima over interleavings.",
+ "C09": ("lockset on counters, waiter table, flags and connection sets; admission test inside the critical section; exactly-once release and wait-group accounting on every path of both ReservedExchanger implementations; no double counting of in-flight queries; reserved exchangers consumed exactly once by callers; dial only when nothing admitted; dialing limit <= connection limit; a reservation is released only by defer or after its exchange returned; connections change hands only by rendezvous. Also: limit fields come from their options; waiter-table entries and QUIC streams are released on every exit; all ReservedExchanger implementations are known. Not decided: run-time maxima over interleavings.",
          TRUST + "sync.Mutex / sync.WaitGroup semantics.",
          "must-lockset dataflow + exhaustive CFG path enumeration (event counting, typestate of reserved exchangers)"),
- "C11": ("lockset on every shard-map access (R for reads, W for writes); bounded insert only via certified edges inside one critical section; per-shard maximum >= 1 for every configured size (interval analysis of the size clamp); expiry guards in Get and the sweep; the cache uses only the locked, bounded map API; the non-evicting testAndSet is only asked to set keys present under the lock. Not decided: linearizability of histories.",
+ "C11": ("lockset on every shard-map access (R for reads, W for writes); bounded insert only via certified edges inside one critical section; per-shard maximum >= 1 for every configured size (interval analysis of the size clamp); expiry guards in Get and the sweep; the cache uses only the locked, bounded map API; the non-evicting testAndSet is only asked to set keys present under the lock. Also: the size clamp ran on the object the size is read from; one bounded constructor call; shard methods run on the map's own shards; Store always sets unless expired. Not decided: linearizability of histories.",
          TRUST + "sync.RWMutex semantics.",
          "must-lockset dataflow + edge-certified reachability + path-sensitive interval analysis"),
- "C18": ("scheme->default-port table by resolved constants; provenance of every dialled/resolved address from parseDialAddr(trimmed URL host, dial_addr, default); SNI default; bracket trimmer strips exactly what it tested; helper schemes; parse errors propagate; the bootstrap resolver is this upstream's own (own allocation, host/port from the parameters, address joined with its own port). Not decided: string semantics of net/url and net.SplitHostPort over all inputs.",
+ "C18": ("scheme->default-port table by resolved constants; provenance of every dialled/resolved address from parseDialAddr(trimmed URL host, dial_addr, default); SNI default; bracket trimmer strips exactly what it tested; helper schemes; parse errors propagate; the bootstrap resolver is this upstream's own (own allocation, host/port from the parameters, address joined with its own port). Also: helper bodies (16-bit decimal port parsing, JoinHostPort, SplitHostPort), default port passed on as given, URL/options never rewritten. Not decided: string semantics of net/url and net.SplitHostPort over all inputs.",
          TRUST + "net/url, net.SplitHostPort, net.JoinHostPort as documented.",
          "AST table check with type-resolved constants + SSA value-provenance + guard analysis"),
- "C19": ("writer/reader field agreement with per-field sources; item rebuilt from matching getters; block length within [0,limit] at the allocation (interval analysis); every read/decode error leads to an error return, only io.EOF on a block header tolerated; header verified first; expired entries skipped on both sides; only rcodes that pack without OPT are admitted; every decoded entry reaches the store. Not decided: round-trip equality of arbitrary messages, robustness of gzip/protobuf/miekg to arbitrary bytes (trusted).",
+ "C19": ("writer/reader field agreement with per-field sources; item rebuilt from matching getters; block length within [0,limit] at the allocation (interval analysis); every read/decode error leads to an error return, only io.EOF on a block header tolerated; header verified first; expired entries skipped on both sides; only rcodes that pack without OPT are admitted; every decoded entry reaches the store. Also: the unpacked message is untouched before it is stored; writer flush bound coupled to the reader limit (D10); one gzip member; every live entry and the last partial block are written; small reader limit. Not decided: round-trip equality of arbitrary messages, robustness of gzip/protobuf/miekg to arbitrary bytes (trusted).",
          TRUST + "protobuf getters return their field; gzip/protobuf/dns.Msg.Unpack report malformed input as errors.",
          "writer/reader table agreement over SSA stores and getter calls + interval analysis + error-flow rule"),
- "C20": ("own answer queued before the sibling-waking close, 'done' only with an answer; gate select before the secondary's Exec; hold select before a standby answer; <=1 send per path and capacity >= workers; caller loop bound / nil skipping / ctx / failure last; workers on copies taken before go with the caller's deadline. Not decided: timing relative to the threshold.",
+ "C20": ("own answer queued before the sibling-waking close, 'done' only with an answer; gate select before the secondary's Exec; hold select before a standby answer; <=1 send per path and capacity >= workers; caller loop bound / nil skipping / ctx / failure last; workers on copies taken before go with the caller's deadline. Also: every worker that ran reports; distinct context copies; threshold in milliseconds; exactly the non-nil results are accepted; makeDdlCtx carries the caller's deadline. Not decided: timing relative to the threshold.",
          TRUST + "Go channel FIFO and close semantics.",
          "channel/select structure analysis over SSA (dominance, case-body reachability, path counting)"),
- "C01": ("waiter-table insert only on the absent edge of a same-key lookup in one locked region; reader dispatch by the id at offset 0 of the very buffer handed over, unclaimed buffers released; exchangers never write the caller's query and restore the caller's id on every returned reply; wire id = registered id at the framing's id offset; reply channel made by its own registration; waiter removed on every exit; idle connections handed out once and re-idled only after their reply; module-wide pooled-buffer typestate. Not decided: which reply a concrete interleaving delivers.",
+ "C01": ("waiter-table insert only on the absent edge of a same-key lookup in one locked region; reader dispatch by the id at offset 0 of the very buffer handed over, unclaimed buffers released; exchangers never write the caller's query and restore the caller's id on every returned reply; wire id = registered id at the framing's id offset; reply channel made by its own registration; waiter removed on every exit; idle connections handed out once and re-idled only after their reply; module-wide pooled-buffer typestate. Also: every connection Write goes through writeQuery; the wire-id counter advances by one per id; the DoH request URL is call-private. Not decided: which reply a concrete interleaving delivers.",
          TRUST + "16-bit id wrap assumption of the property itself.",
          "SSA guard/dominance rules + value provenance + buffer typestate (reachability after release) + lockset"),
- "C05": ("admission table expanded over all branches (lifetimes per rcode, cache lifetime = message lifetime except lazy non-empty NOERROR, TC / non-positive refused, one clock reading); store sites; guarded TTL subtraction; hit path guards and stale TTL constant; refresh only inside singleflight, key forgotten only by the refresh function, after the refresh; expiry guards; OPT-skipping TTL loops. Not decided: clock arithmetic at boundaries.",
+ "C05": ("admission table expanded over all branches (lifetimes per rcode, cache lifetime = message lifetime except lazy non-empty NOERROR, TC / non-positive refused, one clock reading); store sites; guarded TTL subtraction; hit path guards and stale TTL constant; refresh only inside singleflight, key forgotten only by the refresh function, after the refresh; expiry guards; OPT-skipping TTL loops. Also: SetTTL is exact; the hit path ages a Copy(); one singleflight group; GetMinimalTTL skips nothing; reloaded entries keep their age. Not decided: clock arithmetic at boundaries.",
          TRUST + "x/sync/singleflight de-duplicates per key until Forget.",
          "phi-expansion of lifetime values into a per-rcode case table + guard/dominance rules"),
- "C06": ("errors returned unchanged; walkers/nodes immutable after construction; continuation = (index+1, same chain, same jump-back); accept/reject/return/goto/jump call-graph facts; negation and its parsing; short-circuit to the next rule; end-of-chain jump-back. Not decided: equivalence with a reference interpreter over all programs.",
+ "C06": ("errors returned unchanged; walkers/nodes immutable after construction; continuation = (index+1, same chain, same jump-back); accept/reject/return/goto/jump call-graph facts; negation and its parsing; short-circuit to the next rule; end-of-chain jump-back. Also: every matcher passes the negation decision; the rule index advances by exactly one; ExecNext returns only matcher/action/continuation results. Not decided: equivalence with a reference interpreter over all programs.",
          TRUST + "plugins honour the Executable contracts.",
          "who-writes index (immutability) + SSA structure rules on the interpreter loop and built-ins"),
- "C07": ("ctx case in every blocking select; close-notification / dial-finished wake-ups; I/O error => close on every path; close-once with error stored first; transport Close (flag, all conns, dials, entry checks, late dials); goroutine termination table (incl. unbuffered hand-offs that must be outlived by their receiver); bounded deadlines incl. the reader not overriding the waiting-reply deadline; dialled-connection typestate; wait-group accounting; lock order; dialFinished closed at most once (site table); read errors end the read helpers. Not decided: actual timing.",
+ "C07": ("ctx case in every blocking select; close-notification / dial-finished wake-ups; I/O error => close on every path; close-once with error stored first; transport Close (flag, all conns, dials, entry checks, late dials); goroutine termination table (incl. unbuffered hand-offs that must be outlived by their receiver); bounded deadlines incl. the reader not overriding the waiting-reply deadline; dialled-connection typestate; wait-group accounting; lock order; dialFinished closed at most once (site table); read errors end the read helpers. Also: exact arming condition of the waiting-reply deadline and a flag that tracks remaining waiters (D11); the lazy wrapper closes what it holds; no context-less handshake/dial in pkg/upstream. Not decided: actual timing.",
          TRUST + "net.Conn deadlines interrupt blocked I/O; sync.Once.",
          "select/channel structure analysis + must-pass-through on the CFG + path-enumerating typestate"),
- "C08": ("retry re-entered exactly under {failed, not new, counter below bound[, ctx live]} with no narrowing condition; <= 4 attempts; is-new flag coincides with the dial; dead connections removed when detected / on close; every read/write error closes the connection on every path (all connection kinds); pooled buffers are not re-sent or released twice across the retry (inter-procedural release). Not decided: whether the retry succeeds.",
+ "C08": ("retry re-entered exactly under {failed, not new, counter below bound[, ctx live]} with no narrowing condition; <= 4 attempts; is-new flag coincides with the dial; dead connections removed when detected / on close; every read/write error closes the connection on every path (all connection kinds); pooled buffers are not re-sent or released twice across the retry (inter-procedural release). Also: the is-new flag is set unconditionally at the dial; failed attempts surface as non-nil errors promptly. Not decided: whether the retry succeeds.",
          TRUST,
          "guard-set analysis of the loop back edge + phi case expansion"),
- "C10": ("stored message only Copy()'d / Pack()'d; only fresh messages stored; deep-copy helper uses dns.Copy into fresh slices of a new message; hit gets the query id before the next chain step; lookup returns copies; refresh on a context copy taken before the goroutine. Isolation then holds by construction.",
+ "C10": ("stored message only Copy()'d / Pack()'d; only fresh messages stored; deep-copy helper uses dns.Copy into fresh slices of a new message; hit gets the query id before the next chain step; lookup returns copies; refresh on a context copy taken before the goroutine. Also: the stored copy has no other user and is created per store; stores are synchronous. Isolation then holds by construction.",
          TRUST + "dns.Msg.Copy / dns.Copy are deep copies.",
          "use-def discipline on the stored-message field + alias (source-derived slice) propagation in the copy helper"),
- "C17": ("TCP exchange exactly under msgTruncated(UDP reply) with its results returned unchanged; non-truncated reply returned as is with no TCP call reachable; msgTruncated == bit 1 of byte 2; same dial address value; same query; received reply bytes are never written except the id restoration; the TCP transport's idle-set discipline (a connection re-enters the idle set only after its reply was read). Whole property up to the DNS header layout.",
+ "C17": ("TCP exchange exactly under msgTruncated(UDP reply) with its results returned unchanged; non-truncated reply returned as is with no TCP call reachable; msgTruncated == bit 1 of byte 2; same dial address value; same query; received reply bytes are never written except the id restoration; the TCP transport's idle-set discipline (a connection re-enters the idle set only after its reply was read). Also: both exchanges under the caller's context; whole-origin identity of the dial address; datagram buffer >= 4095. Whole property up to the DNS header layout.",
          TRUST,
          "CFG guard/return-shape rules + expression shape of the TC test"),
- "C03": ("malformed queries rejected first with no reply; packed message = plugins' response or SetReply(query)+SERVFAIL/REFUSED; RA forced; OPT re-attached before UDP truncation, truncation iff UDP with a size proven in [512,65535], pack last; provenance of every SetResponse argument from the query it answers; query question/id only modified on a copy or under a deferred restore; redirect reply fix-up; cache key injective in the question; context copies are deep; after validation every return hands back the pack result; the packer returns a pool buffer of its own holding the message and no pooled buffer is used after release (module-wide). Not decided: arbitrary plugin compositions, miekg Truncate/Pack semantics, one reply per request at socket level.",
+ "C03": ("malformed queries rejected first with no reply; packed message = plugins' response or SetReply(query)+SERVFAIL/REFUSED; RA forced; OPT re-attached before UDP truncation, truncation iff UDP with a size proven in [512,65535], pack last; provenance of every SetResponse argument from the query it answers; query question/id only modified on a copy or under a deferred restore; redirect reply fix-up; cache key injective in the question; context copies are deep; after validation every return hands back the pack result; the packer returns a pool buffer of its own holding the message and no pooled buffer is used after release (module-wide). Also: FromUDP is set exactly by the datagram server; the deferred restore writes back the saved original; replies are built from the query of the context they are set on. Not decided: arbitrary plugin compositions, miekg Truncate/Pack semantics, one reply per request at socket level.",
          TRUST + "dns.Msg.SetReply / Truncate as documented; upstreams echo the question.",
          "guard/dominance rules on the entry handler + inter-procedural value provenance (through channels, fields, calls) + interval analysis"),
  "C12": ("ONLY structural necessary conditions: same normalisation on rule and query side, regexps compiled as written, patterns passed on unchanged, shared label scanner with '.' separator, type dispatch table, lookup precedence, default rule types, deepest-value rule in the trie walk, text-loader line pipeline (recognised clean-up steps, parser runs for every non-empty line, errors reported), the label trie only grows (who-writes table), keyword/regexp lookups consult every rule (no pre-filter). NOT decided: the 'if and only if' over all rule sets and names (trie walk, scanner arithmetic, substring/regexp semantics) — input-quantified algorithmics that no static argument in reach settles.",
@@ -65,13 +65,13 @@ CLAIMS = {
  "C13": ("ONLY structural necessary conditions: sort-after-last-load typestate of every created list, who-writes of the slice and the sorted flag (true only after sort+merge replaced the slice), same to6 mapping on both sides, +96 bits exactly for IPv4, masked prefixes, Contains refusing unsorted lists, full-length prefixes for bare addresses, text-loader line pipeline (leading blanks stripped before any cut at a blank, '#' comments, parser runs for every non-empty line, errors reported). NOT decided: the 'if and only if' (comparator, merge of covered prefixes, binary search) over all prefix multisets and addresses.",
          TRUST + "net/netip as documented.",
          "path-enumerating typestate + who-writes index + expression-shape rules"),
- "C14": ("helper count in [1,3] by interval analysis; private per-iteration query copy released by its helper, shared packed query not captured; helper send under select with done (closed by defer) and 5 s timeout context; collecting select watches ctx; acceptance rule = {last, NOERROR, NXDOMAIN}, failures skipped, same count in both loops; cyclic selection from a random start; tag handling; raw reply bytes indexed only under a covering length guard; every iteration of the spawning loop starts a helper; the packed query is a pool buffer of its own. Not decided: arrival order, timing.",
+ "C14": ("helper count in [1,3] by interval analysis; private per-iteration query copy released by its helper, shared packed query not captured; helper send under select with done (closed by defer) and 5 s timeout context; collecting select watches ctx; acceptance rule = {last, NOERROR, NXDOMAIN}, failures skipped, same count in both loops; cyclic selection from a random start; tag handling; raw reply bytes indexed only under a covering length guard; every iteration of the spawning loop starts a helper; the packed query is a pool buffer of its own. Also: returns inside the collecting loop are only accept / context; the wrapper forwards one exchange under its caller's context; helper variables are per-iteration; the helper does not judge rcodes. Not decided: arrival order, timing.",
          TRUST + "math/rand/v2.IntN range.",
          "interval analysis + closure-capture/provenance rules + CFG predecessor-edge analysis of the acceptance block"),
- "C15": ("OPT constructed only by the context helper; option lists written only by the two forwarding plugins; client OPT swapped in place and kept only as clientOpt; resp/upstreamOpt written only by SetResponse (popOpt removes exactly the OPT it found, searching the whole section) and context copy; response OPT iff client OPT, DO mirrored, deep-copied with the context, appended by the handler only when present and at the single pack site; TTL loops skip OPT; cache copy drops OPT; a context copy has its own query message and OPT. Not decided: messages with several OPT records.",
+ "C15": ("OPT constructed only by the context helper; option lists written only by the two forwarding plugins; client OPT swapped in place and kept only as clientOpt; resp/upstreamOpt written only by SetResponse (popOpt removes exactly the OPT it found, searching the whole section) and context copy; response OPT iff client OPT, DO mirrored, deep-copied with the context, appended by the handler only when present and at the single pack site; TTL loops skip OPT; cache copy drops OPT; a context copy has its own query message and OPT. Also: exact guards of the pop and of the append; OPT header fields written only where the OPT is made; ecs_handler's forwarding gates. Not decided: messages with several OPT records.",
          TRUST + "miekg/dns OPT accessors.",
          "who-writes / who-constructs index over the whole module + guard rules"),
- "C16": ("every stream Write sends one buffer from a framing constructor (servers: handler invoked with the length-prefixing packer and returning only its result; no vectored/split writes); constructors check len<=65535 first, header uint16(len) at 0 of a len+2 buffer, body at [2:] of the same buffer; reader uses io.ReadFull twice, rejects len<=12 before allocating, exact-size buffer, release on error; all stream readers go through it; every reply source guarantees 12 bytes and every constant-offset access to raw message bytes is below the length implied by guards, construction or origin; no write deadline on a shared server connection unless failed writes close it. Trusted: io.ReadFull under chunking, write atomicity of one Write call.",
+ "C16": ("every stream Write sends one buffer from a framing constructor (servers: handler invoked with the length-prefixing packer and returning only its result; no vectored/split writes); constructors check len<=65535 first, header uint16(len) at 0 of a len+2 buffer, body at [2:] of the same buffer; reader uses io.ReadFull twice, rejects len<=12 before allocating, exact-size buffer, release on error; all stream readers go through it; every reply source guarantees 12 bytes and every constant-offset access to raw message bytes is below the length implied by guards, construction or origin; no write deadline on a shared server connection unless failed writes close it. Also: WithLengthHeader true for every stream connection; the frame reader reads the connection itself; the handler never writes into packed bytes; read errors end a server connection's read loop. Trusted: io.ReadFull under chunking, write atomicity of one Write call.",
          TRUST + "io.ReadFull semantics; one Write call is not interleaved with others.",
          "value provenance of written buffers + expression-shape rules on constructors and reader"),
 }
